@@ -394,42 +394,37 @@ func c14Features(in c14In) (stanza.StreamFeatures, error) {
 	return f, err
 }
 
-// c14ParseAuth: an independent reading of what was written, with a real XML
-// parser as a server would: one <auth xmlns=sasl mechanism=...>chardata</auth>.
-func c14ParseAuth(data []byte) (mech, text string, ok bool) {
-	d := xml.NewDecoder(bytes.NewReader(data))
-	d.Strict = true
-	tok, err := d.Token()
-	se, isSE := tok.(xml.StartElement)
-	if err != nil || !isSE || se.Name.Space != c14NSSASL || se.Name.Local != "auth" {
-		return "", "", false
+// c14Elem: what was written, read as an ELEMENT (canon.go: namespace-resolved name,
+// attributes, exact character data), because C14 fixes which mechanism the element
+// names and what its character data is, not how the element is spelled (quote style,
+// attribute order, where xmlns stands, hand-written or xml.Marshal).
+// (namespace local mechanism chardata), or (raw bytes) when the write is not exactly
+// one element with one un-prefixed mechanism attribute and character data only.
+func c14Elem(data []byte) Sx {
+	raw := L(SBytes(string(data)))
+	ns, err := parseCanon(data)
+	if err != nil || len(ns) != 1 {
+		return raw
 	}
-	nmech := 0
-	for _, a := range se.Attr {
-		switch {
-		case a.Name.Space == "" && a.Name.Local == "mechanism":
+	n := ns[0]
+	mech, nmech := "", 0
+	for _, a := range n.Attrs {
+		if a.Name.Space == "" && a.Name.Local == "mechanism" {
 			mech = a.Value
 			nmech++
-		case a.Name.Space == "" && a.Name.Local == "xmlns" || a.Name.Space == "xmlns":
-		default:
-			return "", "", false
 		}
 	}
+	text := ""
+	for _, k := range n.Kids {
+		if k.Name.Local != "" { // a child element: not character data only
+			return raw
+		}
+		text += k.Text
+	}
 	if nmech != 1 {
-		return "", "", false
+		return raw
 	}
-	tok, err = d.Token()
-	if cd, isCD := tok.(xml.CharData); err == nil && isCD {
-		text = string(cd)
-		tok, err = d.Token()
-	}
-	if _, isEE := tok.(xml.EndElement); err != nil || !isEE {
-		return "", "", false
-	}
-	if _, err = d.Token(); err != io.EOF {
-		return "", "", false
-	}
-	return mech, text, true
+	return L(SBytes(n.Name.Space), SBytes(n.Name.Local), SBytes(mech), SBytes(text))
 }
 
 func (c14) Run(inp interface{}) Sx {
@@ -478,17 +473,11 @@ func (c14) Run(inp interface{}) Sx {
 			res = 1
 		}
 	}
-	ws := make([]Sx, len(sock.writes))
+	es := make([]Sx, len(sock.writes))
 	for i, w := range sock.writes {
-		ws[i] = SBytes(string(w))
+		es[i] = c14Elem(w)
 	}
-	parsed := L()
-	if len(sock.writes) == 1 {
-		if m, t, ok := c14ParseAuth(sock.writes[0]); ok {
-			parsed = L(L(SBytes(m), SBytes(t)))
-		}
-	}
-	return L(LS(ws), Zi(res), parsed)
+	return L(Zi(len(sock.writes)), Zi(res), LS(es))
 }
 
 func (c14) Input(inp interface{}) Sx {
@@ -517,7 +506,7 @@ func (c14) Oracle(inp interface{}, obs Sx) (string, string) {
 	if len(obs.L) != 3 {
 		return "harness could not set the case up: " + obs.String(), "shape"
 	}
-	writes, res, parsed := obs.L[0].L, obs.L[1].Z, obs.L[2].L
+	nwrites, res, elems := int(obs.L[0].Z), obs.L[1].Z, obs.L[2].L
 	credMech := "PLAIN"
 	if in.Kind == 1 {
 		credMech = "X-OAUTH2"
@@ -529,21 +518,24 @@ func (c14) Oracle(inp interface{}, obs Sx) (string, string) {
 		}
 	}
 	if !common {
-		if len(writes) != 0 {
-			return fmt.Sprintf("server offers %q, credential supports %s: nothing may be sent, but %d write(s): %q", in.Mechs, credMech, len(writes), bytesOf(writes[0])), "no-common-mech-sent"
+		if nwrites != 0 {
+			return fmt.Sprintf("server offers %q, credential supports %s: nothing may be sent, but %d write(s): %s", in.Mechs, credMech, nwrites, elems[0].String()), "no-common-mech-sent"
 		}
 		if res != 1 {
 			return fmt.Sprintf("server offers %q, credential supports %s: expected a permanent error, got result %d", in.Mechs, credMech, res), "no-common-mech-error"
 		}
 		return "", ""
 	}
-	if len(writes) != 1 {
-		return fmt.Sprintf("expected exactly one write of the auth element, got %d", len(writes)), "write-count"
+	if nwrites != 1 || len(elems) != 1 {
+		return fmt.Sprintf("expected exactly one write of the auth element, got %d", nwrites), "write-count"
 	}
-	if len(parsed) != 1 {
-		return fmt.Sprintf("what was written is not a single well-formed <auth/> element: %q", bytesOf(writes[0])), "element-malformed"
+	if len(elems[0].L) != 4 {
+		return fmt.Sprintf("what was written is not a single well-formed element with a mechanism attribute and character data: %q", bytesOf(elems[0].L[0])), "element-malformed"
 	}
-	mech, payload := string(bytesOf(parsed[0].L[0])), string(bytesOf(parsed[0].L[1]))
+	if ns, local := string(bytesOf(elems[0].L[0])), string(bytesOf(elems[0].L[1])); ns != c14NSSASL || local != "auth" {
+		return fmt.Sprintf("the element written is {%s}%s, not {%s}auth", ns, local, c14NSSASL), "element-name"
+	}
+	mech, payload := string(bytesOf(elems[0].L[2])), string(bytesOf(elems[0].L[3]))
 	if mech != credMech {
 		return fmt.Sprintf("mechanism %q is not the credential's %s", mech, credMech), "mechanism-credential"
 	}
